@@ -146,6 +146,15 @@ theorem tie_providerCalls : providerCalls =
 /-- `remoteClient` salts exactly once -/
 theorem tie_keepCalls : keepCalls = ["auth.SaltToken"] := by decide
 
+/-- `remoteClient` touches no state of the proxy other than the per-remote client map (under the
+mutex) and calls SaltToken unconditionally, after the client lookup: its answer depends on
+(remote, token) only — `keepSeq` is a plain `map`. A token cache keyed by anything would show up
+here as further `rp.` calls or conditions. -/
+theorem tie_keepClientStateless :
+    keepClientCalls = ["rp.mtx.Lock", "rp.mtx.Unlock", "rp.mtx.Lock", "rp.mtx.Unlock", "auth.SaltToken"] ∧
+    keepClientConds = ["if !ok", "if err != nil", "if err != nil", "if rp.clients == nil", "if err != nil"] ∧
+    keepClientReturns = ["nil, err", "nil, err", "nil, err", "&kccopy, nil"] := by decide
+
 /-- `Get`: ErrObsoleteToken ⇒ 400, any other error ⇒ 500, before any remote request (`keepGet`) -/
 theorem tie_keepGetConds : keepGetConds =
     ["if token == \"\"",
